@@ -67,7 +67,7 @@ vars == <<l, st>>
 Init0 == [game |-> B!NewBoard(Decode(StartFen).pos, 0, 1), nextgame |-> B!NewBoard(Decode(StartFen).pos, 0, 1), lastcmd |-> "", lastline |-> <<>>,
           pending |-> FALSE, cur |-> 0, launched |-> 0, infinite |-> FALSE, stopped |-> FALSE,
           ended |-> {}, moves |-> [k \in {} |-> ""], winners |-> <<>>, asked |-> 0, readyok |-> 0,
-          exited |-> FALSE, mayexit |-> FALSE, fails |-> {}, bookgo |-> FALSE, nbest |-> 0, ngo |-> 0, unsettled |-> FALSE, final |-> FALSE, busy |-> FALSE]
+          exited |-> FALSE, mayexit |-> FALSE, fails |-> {}, bookgo |-> FALSE, nbest |-> 0, ngo |-> 0, unsettled |-> FALSE, final |-> FALSE, busy |-> FALSE, curAtCmd |-> -1]
 
 AddFail(s, name, cond) == IF cond THEN s ELSE [s EXCEPT !.fails = @ \cup {name}]
 
@@ -77,6 +77,8 @@ Step(s, ev, stub) ==
   CASE nm = "uci.loop.cmd" ->
          LET t == Tokens(a[1]) c == IF Len(t) = 0 THEN "" ELSE t[1] IN
          [s EXCEPT !.lastcmd = c, !.lastline = t, !.busy = TRUE,
+                   \* the go that is pending when a command arrives (see uci.loop.idle)
+                   !.curAtCmd = IF s.pending THEN s.cur ELSE -1,
                    \* the game changes when the loop starts processing the command (its ensureInactive step),
                    \* not when it merely dequeues it: a completion decided in between still belongs to the old game
                    !.nextgame = IF IsPosition(t) THEN Describe(t) ELSE s.game,
@@ -130,7 +132,15 @@ Step(s, ev, stub) ==
          IN [s2 EXCEPT !.exited = TRUE]
     [] nm = "harness.eof" -> [s EXCEPT !.mayexit = TRUE]
     [] nm = "harness.final-run" -> [s EXCEPT !.final = TRUE]
-    [] nm = "uci.loop.idle" -> [s EXCEPT !.busy = FALSE]
+    \* the loop has finished a command. A go that was pending when a position / go / ucinewgame command arrived
+    \* is superseded by then at the latest - whether or not the driver went through ensureInactive (whose hook
+    \* marks the usual instant): an answer for it from now on is an answer nobody waits for
+    [] nm = "uci.loop.idle" ->
+         IF s.busy /\ s.pending /\ s.curAtCmd = s.cur /\ s.cur # -1
+            /\ (s.lastcmd \in {"go", "ucinewgame"} \/ (s.lastcmd = "position" /\ IsPosition(s.lastline)))
+         THEN [s EXCEPT !.busy = FALSE, !.pending = FALSE, !.stopped = FALSE,
+                        !.game = IF s.lastcmd = "position" THEN s.nextgame ELSE @]
+         ELSE [s EXCEPT !.busy = FALSE]
     \* the scenario process died with a Go panic (the events up to then were logged as they were recorded):
     \* a crash of the driver; and a go that is being processed or still awaits its answer is never answered
     [] nm = "harness.crash" ->
